@@ -80,7 +80,8 @@ def _quiet():
 
 def run_workload(arg):
     """In a forked child: precondition (unmonitored), then the workload under the seam, snapshotting."""
-    wl, base, order = arg
+    wl, base, order = arg[:3]
+    mode = arg[3] if len(arg) > 3 else "snap"      # 'snap' (crash snapshots) | 'log' (seam log only) | 'bare' (no seam: strace witness)
     _quiet()
     import joblib
     import joblib.memory as M
@@ -131,8 +132,19 @@ def run_workload(arg):
         with open(dst + ".meta", "w") as f:
             json.dump(meta, f)
 
+    seam_log = []
+
+    def path_of(target):
+        if isinstance(target, (str, bytes, os.PathLike)):
+            return os.fsdecode(target)
+        nm = getattr(target, "name", None)
+        return os.fsdecode(nm) if isinstance(nm, (str, bytes)) else None
+
     def snap(name, target):
         log.append(name)
+        if mode == "log":
+            seam_log.append([name, path_of(target)])
+            return
         dst = os.path.join(snaps, "%04d" % n[0])
         fsmon.set_dir_order(None)
         try:
@@ -142,7 +154,10 @@ def run_workload(arg):
         n[0] += 1
 
     # -- workload
-    fsmon.start(snap)
+    if mode == "bare":
+        os.mkdir(os.path.join(base, "__BEGIN__"))      # delimiters in the system-call trace
+    else:
+        fsmon.start(snap)
     try:
         if wl == "W1-cold":
             mem.cache(mod.f)(0)
@@ -166,8 +181,13 @@ def run_workload(arg):
         elif wl == "W9-second-function":
             mem.cache(mod.g)(0)
     finally:
-        fsmon.stop()
+        if mode == "bare":
+            os.mkdir(os.path.join(base, "__END__"))
+        else:
+            fsmon.stop()
     fsmon.set_dir_order(None)
+    if mode != "snap":
+        return {"seam_log": seam_log, "cache": cache}
     take(os.path.join(snaps, "%04d" % n[0]))
     return {"snapshots": n[0] + 1, "final_version": final_version, "calls": len(log),
             "mutating": sum(1 for x in log if fsmon.is_mutating(x))}
@@ -432,6 +452,15 @@ def _work(item):
 
 
 def run(ctx):
+    # the seam itself is validated first against the kernel's view of the same workloads (strace witness)
+    from .. import fswitness
+    wl_w = ("W1-cold", "W3-source-changed", "W7-reduce_size") if ctx.tier == "quick" else WORKLOADS
+    wit, problems = fswitness.witness(wl_w)
+    if problems:
+        raise core.HarnessError("the file-system seam (vf.fsmon) misses mutating system calls seen by strace: %s" % "; ".join(problems[:4]))
+    ctx.sample({"seam_witness(strace)": wit})
+    if problems is None:
+        ctx.assumptions.append("strace witness of the file-system seam could not run here (%s): completeness of the seam rests on the callable-identity filter" % wit.get("strace"))
     items = [(wl, order, ctx.tier) for wl in WORKLOADS for order in ("asc", "desc")]
     n = states = snaps = calls = 0
     k = 0
@@ -452,9 +481,10 @@ def run(ctx):
     ctx.exhaustive = True
     ctx.assumptions += ["crash = process death (kill -9): completed system calls are visible, data still in Python-level buffers is lost (the snapshot copies what the OS has)",
                         "a C-level call that issues several write(2) calls is covered by the torn variants, not by separate snapshots",
-                        "directory listing order is patched at os.scandir / os.listdir"]
+                        "directory listing order is patched at os.scandir / os.listdir",
+                        "seam completeness: every mutating system call that strace -f sees on the cache directory during the witness workloads has a seam event of the same class and file name, unbuffered effects in the same order"]
     return {"evaluations": n, "distinct_nontrivial": states, "snapshots": snaps, "intercepted_fs_calls": calls,
-            "workload_runs": len(items)}
+            "workload_runs": len(items), "seam_witness_syscalls_matched": wit.get("syscalls_matched", 0)}
 
 
 def replay(data):
